@@ -700,6 +700,11 @@ func (vc *VC) bindLoopSpec(st *State, si *SpecInfo, fi *FuncInfo, pos token.Pos)
 			panic(unsupported("loop spec %s: no variable named %s in scope", si.Decl.Name.Name, p.Name()))
 		}
 		v, ok := st.vars[found]
+		if !ok && isRangeVarOf(fi, found, pos) {
+			// the loop's own range variable, not assigned yet at the loop head: an arbitrary value (invariants
+			// are then proved for every value, iteration postconditions see the iteration's value)
+			v, ok = vc.freshVal(found.Type(), "unset."+p.Name()), true
+		}
 		if !ok {
 			panic(unsupported("loop spec %s: variable %s has no value at the loop head", si.Decl.Name.Name, p.Name()))
 		}
@@ -726,6 +731,31 @@ func (vc *VC) checkInvariants(st *State, lc *loopCtx, kind string, entry *State)
 		if c.Kind == "invariant" {
 			t := vc.evalClause(st, lc.spec, c.Expr, entry)
 			vc.oblige(st, kind, fmt.Sprintf("loop%d.%s", lc.ord, c.Name), c.Pos, t, "loop invariant "+c.Name)
+		}
+	}
+	vc.unbind(b)
+}
+
+// checkIterPosts: `ensures` clauses of a loop spec are iteration postconditions: checked at the end of every
+// iteration (normal end and continue), over the iteration's own values of the loop variables; never assumed.
+func (vc *VC) checkIterPosts(st *State, lc *loopCtx, entry *State) {
+	if lc.spec == nil {
+		return
+	}
+	any := false
+	for _, c := range lc.spec.Clauses {
+		if c.Kind == "ensures" {
+			any = true
+		}
+	}
+	if !any {
+		return
+	}
+	b := vc.bindLoopSpec(st, lc.spec, lc.fi, lc.pos)
+	for _, c := range lc.spec.Clauses {
+		if c.Kind == "ensures" {
+			t := vc.evalClause(st, lc.spec, c.Expr, entry)
+			vc.oblige(st, "iter", fmt.Sprintf("loop%d.%s", lc.ord, c.Name), c.Pos, t, "iteration postcondition "+c.Name)
 		}
 	}
 	vc.unbind(b)
@@ -871,6 +901,7 @@ func (vc *VC) execLoop(st *State, node ast.Node, label string, assigned []types.
 	if end != nil {
 		// 6. invariant preserved, variant decreases
 		vc.checkInvariants(end, lc, "inv.keep", entry)
+		vc.checkIterPosts(end, lc, entry)
 		if len(lockPre) > 0 {
 			var cs []string
 			for _, m := range sortedKeys(boolKeys(lockPre)) {
@@ -1214,6 +1245,10 @@ func (vc *VC) execSelect(st *State, x *ast.SelectStmt, label string) *State {
 		b.pc = vc.newPC(and(st.pc, vc.declare("select.choice", SBool)))
 		if cc.Comm != nil {
 			b = vc.exec(b, cc.Comm, "")
+		} else if gf := vc.prog.ghostByName(vc.pkg, "gh_selectDefault"); gf != nil {
+			// ghost: this goroutine took the default branch of a select (its channel operations could not proceed)
+			name, _, _, hs := vc.ghostHeap(gf)
+			vc.heapSet(b, name, hs, fmt.Sprintf("(+ %s 1.0)", vc.heapGet(b, name, hs)))
 		}
 		vc.inSelect--
 		if b != nil {
@@ -1243,4 +1278,20 @@ func boolKeys(m map[string]string) map[string]bool {
 		o[k] = true
 	}
 	return o
+}
+
+// isRangeVarOf: o is declared by the range statement whose body starts at pos.
+func isRangeVarOf(fi *FuncInfo, o types.Object, pos token.Pos) bool {
+	found := false
+	ast.Inspect(fi.Decl, func(n ast.Node) bool {
+		if r, ok := n.(*ast.RangeStmt); ok && loopBodyPos(r) == pos {
+			for _, e := range []ast.Expr{r.Key, r.Value} {
+				if id, ok := e.(*ast.Ident); ok && fi.Pkg.TypesInfo.Defs[id] == o {
+					found = true
+				}
+			}
+		}
+		return true
+	})
+	return found
 }
